@@ -46,6 +46,10 @@ CHECKS = {
    text="same engine with and without a configured handler: the monitor requires exactly one handler invocation per wrapped-sink error, same error payload, on the worker thread, before the next metric, never for accepted metrics; exhaustive on the model, replayed and trace-validated on the real builder-configured sink.",
    note="as C08",
    tech="TLC model checking + scheduled replay + trace validation"),
+ "C18": dict(engine="holder", cat=MC, ref="DESIGN.md 6/C18",
+   text="TLC explores all interleavings AND all stale-load choices of three threads running set/get/is_set programs on Holder.tla (compare_exchange -> cell write -> store; load -> cell read) under a view-based release/acquire semantics, composed with the monitor HolderProp (vector-clock happens-before: every cell read/write ordered after the previous conflicting access; one winner; get returns none or the winner's instance). The four memory orderings of the model are not typed in: they are read from a probe run of the real code through the cfg(cadence_verif) atomic shim, so weakening an Ordering in state.rs changes the model that is checked (store or load -> Relaxed are refuted, CAS -> Relaxed is correctly accepted). TLC-simulated interleavings are replayed on fresh SingletonHolders with the threads parked at the shim points, and scheduled + free-running traces are validated by TLC against HolderProp using the orderings logged in the trace.",
+   note="release/acquire semantics as encoded in HolderProp; executions recorded on x86 are sequentially consistent, so non-SC behaviours are covered in the model only; if the holder is rewritten so that the shim sees a different operation shape only the trace-level rules apply (reported as MODEL-DIVERGENCE)",
+   tech="TLC model checking of a weak-memory implementation model with orderings extracted from the source; scheduled replay; trace validation with a vector-clock monitor"),
 }
 
 def main():
@@ -69,6 +73,7 @@ def main():
     for pid, c in CHECKS.items():
         engines.setdefault(c["engine"], []).append(pid)
     ENG_DESC = {
+      "holder": ("spec/Holder.tla + spec/HolderProp.tla + spec/HolderTrace.tla; tools/eng_holder.py; harness/src/holder.rs", "TLA+ weak-memory model x happens-before monitor; orderings extracted from the running code; scheduled replay; trace validation"),
       "queue": ("spec/Queue.tla + spec/QueueProp.tla + spec/QueueTrace.tla; tools/eng_queue.py; harness/src/queue.rs", "TLA+ implementation model x monitor with liveness; cooperative-scheduler replay; free-running trace validation"),
       "writer": ("spec/Writer.tla + spec/WriterProp.tla + spec/WriterTrace.tla; tools/eng_writer.py; harness/src/writer.rs", "TLA+ implementation model x property monitor, TLC exhaustive + behaviour replay + trace validation"),
     }
